@@ -2,7 +2,9 @@
 (* Theme "staking + old-style binding": deposits with change, a deposit paid *)
 (* by one wallet to the other's staking address, withdrawals (valid only     *)
 (* once consensus allows), a conflicting spend of the funding coin.  The     *)
-(* deposits of s2 and b1 are NOT the first output of their transaction.      *)
+(* deposits of s2 and b1 are NOT the first output of their transaction; the  *)
+(* holder address of b1's binding is paid by nothing else (its first use is  *)
+(* a binding output).                                                        *)
 EXTENDS Gen
 S(o, a, c, v, l) == [owner |-> o, addr |-> a, class |-> c, amt |-> v, lock |-> l]
 MC_TxIds   == {"s1", "s1x", "s2", "s1w", "b1", "b1w"}
@@ -18,7 +20,7 @@ MC_TxOuts  == [t \in MC_TxIds |->
                    [] t = "s1x" -> <<S("S", 0, "std", 49, 0)>>
                    [] t = "s2"  -> <<S("w1", 0, "std", 8, 0), S("w2", 2, "stk", 10, 1)>>
                    [] t = "s1w" -> <<S("w1", 0, "std", 29, 0)>>
-                   [] t = "b1"  -> <<S("w2", 1, "std", 34, 0), S("w2", 0, "bind", 25, 0)>>
+                   [] t = "b1"  -> <<S("w2", 0, "std", 34, 0), S("w2", 1, "bind", 25, 0)>>
                    [] t = "b1w" -> <<S("w2", 1, "std", 24, 0)>>]
 MC_TxOrder == <<"s1", "s1x", "b1", "s2", "s1w", "b1w">>
 MC_CbId    == <<"c1", "c2", "c3", "c4", "c5", "c6", "c7", "c8", "c9", "c10", "c11", "c12", "c13", "c14">>
